@@ -19,7 +19,7 @@ from props import c06
 THEOREMS = ['C07_write_order', 'C07_raw_verbatim', 'C07_deleted_not_written', 'C07_includes_not_written', 'C07_include_cycles', 'C07_include_inserted',
             'C07_passthrough_fixpoint', 'C07_scaled_denote', 'C07_expand_example']
 IMPORTS = 'From SX Require Import Base.Prelude Base.Str Model.Wrap Model.Writer.\n'
-UNKNOWN = ['TIME 5', 'MOLE 1', 'HOPE 1 2 3', 'LONE 1 2 C1', 'BEDE x y', 'TIME   5    ! odd   spacing', 'mole 2']
+UNKNOWN = ['REM caf\u00e9ine at 100\u00b0 d = 1.54 \u00c5', 'TIME 5 ! \u00c5ngstr\u00f6m', 'TIME 5', 'MOLE 1', 'HOPE 1 2 3', 'LONE 1 2 C1', 'BEDE x y', 'TIME   5    ! odd   spacing', 'mole 2']
 
 
 def ascii_ok(s):
@@ -43,6 +43,17 @@ def add_unknown(text, rng):
     for _ in range(rng.randint(0, 3)):
         i = rng.randint(8, max(8, len(lines) - 2))
         if lines[i - 1].split('!')[0].rstrip().endswith('=') or lines[i].startswith(' '):
+            continue
+        if rng.random() < 0.35:
+            # an uninterpreted instruction wrapped over two or three lines, with its own indentation
+            toks = ['C%d' % q for q in range(1, rng.randint(25, 60))]
+            kw = rng.choice(['LONE 1 2', 'BEDE', 'HOPE 3'])
+            cut = sorted(rng.sample(range(5, len(toks) - 2), rng.randint(1, 2)))
+            parts = [toks[:cut[0]]] + [toks[a:b] for a, b in zip(cut, cut[1:] + [len(toks)])]
+            block = [kw + ' ' + ' '.join(parts[0]) + ' ='] + [' ' * rng.randint(1, 7) + ' '.join(pp) + (' =' if q < len(parts) - 2 else '') for q, pp in enumerate(parts[1:])]
+            if all(len(b) <= 80 for b in block):
+                lines[i:i] = block
+                ins.append(block)
             continue
         u = rng.choice(UNKNOWN)
         lines.insert(i, u)
@@ -117,6 +128,13 @@ def run(ctx):
             # unknown lines verbatim and in place (between the same neighbours)
             wl = w1.split('\n')
             for u in unknown:
+                if isinstance(u, list):
+                    hit = [q for q in range(len(wl)) if wl[q:q + len(u)] == u]
+                    if not hit:
+                        common.add_violation(ctx, 'a wrapped instruction the parser does not interpret is not kept verbatim', dict(case, written=w1), u,
+                                             [l for l in wl if l.upper().startswith(u[0][:4].upper())][:3])
+                        break
+                    continue
                 if u not in wl:
                     common.add_violation(ctx, 'a line the parser does not interpret is not kept verbatim', dict(case, written=w1), u,
                                          [l for l in wl if l.upper().startswith(u[:4].upper())][:3])
